@@ -115,6 +115,12 @@ class JnpCumProdPlugin(PrimitiveLeafPlugin):
         return ShapedArray(out_shape, out_dtype)
 
     def lower(self, ctx: LoweringContextProtocol, eqn: JaxprEqn) -> None:
+        opset = int(getattr(ctx.builder, "opset", 0) or 0)
+        if opset < 26:
+            raise NotImplementedError(
+                "jnp.cumprod is lowered to ONNX CumProd, which exists from opset 26 "
+                f"on; the requested opset is {opset}."
+            )
         (operand_var,) = eqn.invars
         (out_var,) = eqn.outvars
 
